@@ -71,6 +71,8 @@ func pow2ceil(x float64) float64 {
 	return p
 }
 
+var intervalDepth int
+
 // intervals runs the analysis to a fixpoint with widening at phis.
 func intervals(fn *ssa.Function) *intervalResult {
 	res := &intervalResult{vals: map[ssa.Value]itv{}, overflow: map[ssa.Instruction]string{}}
@@ -246,6 +248,23 @@ func intervals(fn *ssa.Function) *intervalResult {
 						set(in, r)
 					}
 				case *ssa.Return:
+				case *ssa.Call:
+					// a helper of the same package: use the interval of what it returns (parameters at their type ranges)
+					if callee := in.Call.StaticCallee(); callee != nil && callee.Pkg == fn.Pkg && callee.Blocks != nil && callee != fn && intervalDepth < 4 && callee.Signature.Results().Len() == 1 {
+						intervalDepth++
+						sub := intervals(callee)
+						intervalDepth--
+						for k, m := range sub.overflow {
+							res.overflow[k] = m
+						}
+						if len(sub.rets) == 1 && !sub.rets[0].bottom {
+							set(in, sub.rets[0])
+							continue
+						}
+					}
+					if r, ok := typeRange(in.Type()); ok {
+						set(in, r)
+					}
 				default:
 					if v, ok := in.(ssa.Value); ok {
 						if r, ok := typeRange(v.Type()); ok {
@@ -289,7 +308,32 @@ func byteSumOps(fn *ssa.Function) []string {
 		return ok && (strings.Contains(phi.Comment, "rangeindex") || phi.Comment == "i")
 	}
 	adds := 0
-	for _, b := range fn.Blocks {
+	// the sum may live in helpers: look at the function and every module function it (transitively) calls
+	var fns []*ssa.Function
+	seenFn := map[*ssa.Function]bool{}
+	var collect func(f *ssa.Function)
+	collect = func(f *ssa.Function) {
+		if f == nil || seenFn[f] || f.Blocks == nil {
+			return
+		}
+		seenFn[f] = true
+		fns = append(fns, f)
+		for _, b := range f.Blocks {
+			for _, in := range b.Instrs {
+				if c, ok := in.(ssa.CallInstruction); ok {
+					if callee := c.Common().StaticCallee(); callee != nil && callee.Pkg == fn.Pkg {
+						collect(callee)
+					}
+				}
+			}
+		}
+	}
+	collect(fn)
+	var blocks []*ssa.BasicBlock
+	for _, f := range fns {
+		blocks = append(blocks, f.Blocks...)
+	}
+	for _, b := range blocks {
 		for _, in := range b.Instrs {
 			switch in := in.(type) {
 			case *ssa.BinOp:
